@@ -8,17 +8,17 @@ use crate::term::*;
 use molt::types::*;
 
 // ---- trees ----
-fn int(z: i64) -> Term { tag("int", vec![ti(z)]) }
-fn flt(s: &str) -> Term { tag("flt", vec![ts(s)]) }
-fn strq(s: &str) -> Term { tag("str", vec![ts(s)]) }       // "quoted"
+pub fn int(z: i64) -> Term { tag("int", vec![ti(z)]) }
+pub fn flt(s: &str) -> Term { tag("flt", vec![ts(s)]) }
+pub fn strq(s: &str) -> Term { tag("str", vec![ts(s)]) }       // "quoted"
 fn strb(s: &str) -> Term { tag("brc", vec![ts(s)]) }       // {braced}
 fn boolw(s: &str) -> Term { tag("bool", vec![ts(s)]) }
-fn var(name: &str, val: &str) -> Term { tag("var", vec![ts(name), ts(val)]) }
+pub fn var(name: &str, val: &str) -> Term { tag("var", vec![ts(name), ts(val)]) }
 fn cmd(val: &str) -> Term { tag("cmd", vec![ts(val)]) }
-fn un(op: &str, a: Term) -> Term { tag("un", vec![ts(op), a]) }
-fn bin(op: &str, a: Term, b: Term) -> Term { tag("bin", vec![ts(op), a, b]) }
-fn cond(c: Term, a: Term, b: Term) -> Term { tag("cond", vec![c, a, b]) }
-fn func(name: &str, a: Term) -> Term { tag("fn", vec![ts(name), a]) }
+pub fn un(op: &str, a: Term) -> Term { tag("un", vec![ts(op), a]) }
+pub fn bin(op: &str, a: Term, b: Term) -> Term { tag("bin", vec![ts(op), a, b]) }
+pub fn cond(c: Term, a: Term, b: Term) -> Term { tag("cond", vec![c, a, b]) }
+pub fn func(name: &str, a: Term) -> Term { tag("fn", vec![ts(name), a]) }
 
 pub const BINOPS: [&str; 24] = [
     "*", "/", "%", "+", "-", "<<", ">>", "<", ">", "<=", ">=", "==", "!=", "eq", "ne", "in", "ni", "&", "^", "|", "&&", "||",
@@ -76,7 +76,7 @@ fn wrap(rng: &mut Rng, s: String, need: bool) -> String {
 }
 
 /// render with C precedence; `vars` collects (name, value) to preset
-fn render(rng: &mut Rng, t: &Term, vars: &mut Vec<(String, String)>) -> String {
+pub fn render(rng: &mut Rng, t: &Term, vars: &mut Vec<(String, String)>) -> String {
     match t.nth(0).as_str() {
         "int" => format!("{}", t.nth(1).as_int()),
         "flt" => t.nth(1).as_str().to_string(),
@@ -88,6 +88,10 @@ fn render(rng: &mut Rng, t: &Term, vars: &mut Vec<(String, String)>) -> String {
             if rng.chance(1, 3) { format!("${{{}}}", t.nth(1).as_str()) } else { format!("${} ", t.nth(1).as_str()) }
         }
         "cmd" => format!("[ident {}]", Value::from(vec![Value::from(t.nth(1).as_str())]).as_str()),
+        "rec" => format!("[rec k{} {}]", t.nth(1).as_int(), Value::from(vec![Value::from(t.nth(2).as_str())]).as_str()),
+        "unset" => format!("$nosuch{} ", t.nth(1).as_int()),
+        "badcmd" => "[nosuchcmd 1]".to_string(),
+        "raw" => t.nth(1).as_str().to_string(),
         "un" => {
             let a = t.nth(2);
             let s = render(rng, a, vars);
